@@ -15,6 +15,7 @@ mod connlife;
 mod credit;
 mod e2e;
 mod frame;
+mod hostile;
 mod ids;
 mod life;
 mod limits;
@@ -81,6 +82,7 @@ fn main() {
         "recvcredit" => recvcredit::main(&opts),
         "reasm" => reasm::main(&opts),
         "ids" => ids::main(&opts),
+        "hostile" => hostile::main(&opts),
         "limits" => limits::main(&opts),
         "connlife" => connlife::main(&opts),
         "settle" => settle::main(&opts),
